@@ -314,11 +314,15 @@ class Engine(object):
             c.extra = 8.0 if c.id == getattr(self, "long_victim", None) \
                 else 0.0
         else:
-            c.x, c.y, c.p = t.draw(256), t.draw(256), t.draw(18)
+            c.x, c.y, c.p = t.edge(256), t.edge(256), t.edge(18)
             c.cmd = CMDS[t.draw(len(CMDS))]
-            c.arg2 = t.draw(1 << 32)
-            c.arg3 = t.draw(1 << 32)
-            c.data = t.bytes(t.draw_small(min(self.buffer_size, 48) + 1, 0.7))
+            c.arg2 = t.edge(1 << 32)
+            c.arg3 = t.edge(1 << 32)
+            n_data = t.draw_small(min(self.buffer_size, 48) + 1, 0.7)
+            if t.draw(8) == 0:
+                # a payload filling the machine's buffer (to the byte)
+                n_data = self.buffer_size - t.draw(2)
+            c.data = t.bytes(n_data)
             c.extra = [0.0, 0.0, 0.0, 0.05, 0.3, 5.0][t.draw(6)]
         c.timeout = self.timeout + c.extra
         c.tx_clock = []
